@@ -378,3 +378,25 @@ def c09(ctx):
     assumptions = ["the statement constrains EC size only: brainpoolP256r1 may sign ES256 under OpenSSL", "a key the importer refuses counts as refused"]
     cov, mn = P.generic_harness_check(ctx, "C09_floor", rule, assumptions, extra_link="", exhaustive=True, min_nontrivial={"quick": 200, "thorough": 200})
     return P.finish(ctx, "exploration", cov, assumptions, mn)
+
+
+# ---------------------------------------------------------------- C12
+harness_job("C12_providers")
+std_replayer("C12", "C12_providers")
+
+
+@P.check("C12")
+def c12(ctx):
+    """providers interchangeable: verdict agreement, mutual acceptance, byte-identical deterministic tokens, exact-name switching, cross-provider key use"""
+    rule = ("(1) rapidcheck: (key, alg) of the common matrix (all but ES256K/secp256k1) x checker config x base token made by the OpenSSL builder, the GnuTLS builder or the "
+            "reference signer x 0-2 mutation steps from the 22 operators of C01; tokens are classified RFC-valid / not validly signed / gray zone (valid but lenient base64, PSS "
+            "salt != hash length, other alg of the key) - gray-zone tokens are counted and excluded as the statement does; oracle: both providers give the same verdict, RFC-valid "
+            "tokens are accepted. (2,3,5) exhaustive grid (key, alg) x loading provider x signing provider x verifying provider: key loaded under one provider signs under another, "
+            "verifies under the third and is freed under the other; HS*/RS*/EdDSA tokens from identical builder state and clock are byte-identical across providers. "
+            "(4) jwt_set_crypto_ops over exact names, case variants, prefixes, extensions, whitespace, empty, other providers' names and 60 seeded edits; jwt_set_crypto_ops_t over "
+            "ids -5..10 and random; JWT_CRYPTO values in a child process: switch iff exact name/id of a compiled provider, otherwise non-zero and provider unchanged / first provider. "
+            "Non-trivial = verdict case that reaches the provider verify routine under both providers, cross-provider cell, near-miss name/id; distinct by hash / by construction.")
+    assumptions = ["reference verifier decides RFC validity", "ES256K / secp256k1 are outside the common matrix",
+                   "known dependency finding (nettle ignores the last Ed448 signature byte) has its own signature"]
+    cov, mn = P.generic_harness_check(ctx, "C12_providers", rule, assumptions, min_nontrivial={"quick": 3000, "thorough": 50000})
+    return P.finish(ctx, "exploration", cov, assumptions, mn)
